@@ -163,7 +163,7 @@ func newPathToken(typ pathType, val string, s, e int) pathToken {
 	switch typ {
 	case pathTypeEOF:
 		return pathToken{typ: typ}
-	case pathTypeStr, pathTypeAny, pathTypeElem, pathTypeField, pathTypeIndexL, pathTypeIndexR, pathTypeLitStr, pathTypeMapR, pathTypeMapL, pathTypeRoot:
+	case pathTypeStr, pathTypeAny, pathTypeElem, pathTypeField, pathTypeIndexL, pathTypeIndexR, pathTypeLitStr, pathTypeMapR, pathTypeMapL, pathTypeRoot, pathTypeERR:
 		return pathToken{typ: typ, val: newPathValueStr(val), loc: [2]int{s, e}}
 	case pathTypeLitInt:
 		i, err := strconv.Atoi(val)
